@@ -408,12 +408,15 @@ fn boundary<'t, A>(tree: &Tokenized<'t, A>) -> Result<(), RuleError<'t>>
 where
     A: Spanned,
 {
+    // Only tokens in the same concatenation are adjacent. Tokens that merely have the same position
+    // in the tree (depth and branch) may have different parent tokens.
     if let Some((left, right)) = walk::forward(tree)
-        .group_by(TokenEntry::position)
-        .into_iter()
-        .flat_map(|(_, group)| {
-            group
-                .map(TokenEntry::into_token)
+        .map(TokenEntry::into_token)
+        .filter_map(Token::as_concatenation)
+        .flat_map(|concatenation| {
+            concatenation
+                .tokens()
+                .iter()
                 .tuple_windows::<(_, _)>()
                 .filter(|(left, right)| left.boundary().and(right.boundary()).is_some())
                 .map(|(left, right)| (*left.annotation().span(), *right.annotation().span()))
